@@ -192,8 +192,11 @@ def send(app, path, accept):
         env['HTTP_ACCEPT'] = accept
     else:
         env.pop('HTTP_ACCEPT', None)
-    app_iter, status, headers = run_wsgi_app(app, env)
-    body = b''.join(app_iter)
+    try:
+        app_iter, status, headers = run_wsgi_app(app, env)
+        body = b''.join(app_iter)
+    except Exception as e:  # noqa  (no error response at all: an observation, judged by the trace specification)
+        return -1, {}, ('exception escaped the application: %s' % type(e).__name__).encode('utf8')
     return int(status.split()[0]), dict(headers), body
 
 
@@ -235,6 +238,8 @@ def check(run):
         scenarios.append({'cls': errors.BadRequest, 'how': 'raise', 'name': 'BadRequest', 'detail': p,
                           'message': PALETTE[(i + 1) % len(PALETTE)], 'error_type': PALETTE[(i + 2) % len(PALETTE)], 'palette': True})
         scenarios.append({'uncaught': p, 'name': 'InternalServerError', 'palette': True})
+    # an uncaught exception WITHOUT a message (RuntimeError(), KeyError(), ValueError(''))
+    scenarios.append({'uncaught': '', 'name': 'InternalServerError', 'palette': True})
     apps = {False: build(scenarios, False), True: build(scenarios, True)}
     recs = []
     tid = 0
@@ -254,6 +259,10 @@ def check(run):
             for f in ('detail', 'message', 'error_type'):
                 if sc.get(f) is not None:
                     exp[f] = sc[f]
+        if st == -1:
+            return {'cls': cls_name, 'code_override': code_override, 'accept': acc, 'status': -1, 'ctype': 'none',
+                    'wellformed': False, 'fields_expected': sorted(exp), 'fields_found': [], 'alien': [],
+                    '_debug': debug, '_idx': idx, '_path': path, '_body': body.decode('utf8', 'replace')}
         ctype, well, found, alien = project(st, hd, body, exp)
         return {'cls': cls_name, 'code_override': code_override, 'accept': acc, 'status': st, 'ctype': ctype,
                 'wellformed': well, 'fields_expected': sorted(exp), 'fields_found': found, 'alien': alien,
@@ -319,7 +328,9 @@ def check(run):
     for t, flags in sorted(rej.items()):
         r_ = by[t]
         status_ok, format_ok, body_ok = flags
-        if not status_ok:
+        if r_['status'] == -1:
+            sig = 'no-error-response:exception-escaped:%s' % ('debug' if r_['_debug'] else 'default')
+        elif not status_ok:
             sig = 'wrong-status:%s:%s' % (r_['cls'], r_['status'])
         elif not format_ok:
             sig = 'format-not-negotiated:%s' % r_['ctype']
